@@ -51,10 +51,17 @@ def run_flex(flexdir, ltext, args, want=("scanner",), faults=None, env=None, cwd
     cmd.append(lpath)
     e = dict(os.environ, LC_ALL="C", ASAN_OPTIONS="detect_leaks=0:abort_on_error=0:exitcode=97", UBSAN_OPTIONS="halt_on_error=1:exitcode=96")
     if env: e.update(env)
-    lim = faults.get("scanner") == "rlimit" or faults.get("header") == "rlimit"
+    lim = faults.get("scanner") in ("rlimit", "rlimitsig") or faults.get("header") == "rlimit"
+    # "rlimitsig": the file size limit with SIGXFSZ at its default - the process that writes the scanner (a filter child of flex)
+    # is terminated by the signal; "m4killed": m4 reads its input and is then killed before it has written anything
+    limsig = faults.get("scanner") == "rlimitsig"
+    if faults.get("scanner") == "m4killed":
+        m4 = os.path.join(wd, "m4-killed.sh")
+        open(m4, "w").write("#!/bin/sh\ncat >/dev/null\nkill -KILL $$\n"); os.chmod(m4, 0o755)
+        e["M4"] = m4
 
     def pre():
-        signal.signal(signal.SIGXFSZ, signal.SIG_IGN)
+        signal.signal(signal.SIGXFSZ, signal.SIG_DFL if limsig else signal.SIG_IGN)
         if lim: resource.setrlimit(resource.RLIMIT_FSIZE, (4096, 4096))
     so = open(paths["scanner"], "wb") if (stdout_scanner and "scanner" in want and paths["scanner"] != "/dev/full") else None
     if stdout_scanner and paths["scanner"] == "/dev/full": so = open("/dev/full", "wb")
@@ -68,6 +75,7 @@ def run_flex(flexdir, ltext, args, want=("scanner",), faults=None, env=None, cwd
     finally:
         if so: so.close()
     sig = -rc if rc < 0 and not timed else 0
+    if limsig and sig == signal.SIGXFSZ: sig = 0; rc = 128 + int(signal.SIGXFSZ)
     asan = ("AddressSanitizer" in err) or ("runtime error:" in err) or rc in (96, 97)
     lines = [l for l in err.splitlines() if l.strip() and not l.startswith("==") and "Sanitizer" not in l]
     outs = []
